@@ -136,16 +136,17 @@ Proof.
 Qed.
 
 Lemma referenced_covers fields chain s x :
-  covers_writes fields = true -> In s chain -> In x (s_read s) \/ In x (s_modified s) ->
+  covers_writes fields = true -> In s chain -> In x (s_read s) \/ In x (s_modified s) \/ In x (s_hidden s) ->
   In x (referenced fields chain).
 Proof.
-  unfold covers_writes; intros C Hs Hx. apply andb_true_iff in C; destruct C as [C1 C2].
-  apply existsb_sfield in C1, C2.
+  unfold covers_writes; intros C Hs Hx. apply andb_true_iff in C; destruct C as [C C3]. apply andb_true_iff in C; destruct C as [C1 C2].
+  apply existsb_sfield in C1, C2, C3.
   unfold referenced. apply in_concat. exists (concat (map (sget s) fields)). split.
   - apply in_map_iff. exists s; auto.
-  - apply in_concat. destruct Hx as [Hx|Hx].
+  - apply in_concat. destruct Hx as [Hx|[Hx|Hx]].
     + exists (s_read s); split; [apply in_map_iff; exists FRead; auto | exact Hx].
     + exists (s_modified s); split; [apply in_map_iff; exists FModified; auto | exact Hx].
+    + exists (s_hidden s); split; [apply in_map_iff; exists FHidden; auto | exact Hx].
 Qed.
 
 Lemma flatten_simple l : flatten (map QSimple l) = l.
